@@ -3,7 +3,7 @@
 From Coq Require Import Ascii String ZArith List Bool.
 Import ListNotations.
 From Coq Require Import PrimFloat.
-Require Import PyBase Solver SolverF FText FTextFacts FSem FSemFacts FSolve FSolveFacts FSolveSim FPassFacts FortranF FortranExamples.
+Require Import PyBase Solver SolverF FText FTextFacts FSem FSemFacts FSolve FSolveFacts FSolveSim FSolveEdge FPassFacts FSolveAll FPassSolve FortranF FortranExamples.
 Open Scope Z_scope.
 
 (* ================================================================== text of build_fortran_definition *)
@@ -31,6 +31,21 @@ Theorem C07_rewrite_terms names sg tl :
   rewrite names (render_segs sg tl) = stream names sg tl.
 Proof. exact (rewrite_terms names sg tl). Qed.
 Print Assumptions C07_rewrite_terms.
+
+(* str.replace('t', 'index') turns the index text of a term at lag / lead k (`t`, `t-2`, `t+1`) into `index`, `index-2`,
+   `index+1`: the sign and size of k are kept *)
+Theorem C07_index_text_rewritten k : replace_t (idx_text k) = f_idx_text k.
+Proof. exact (replace_t_idx_text k). Qed.
+Print Assumptions C07_index_text_rewritten.
+
+(* THE TERM: `NAME[t+k]` with NAME at position i of the Python class's variable order becomes `solved_values(i+1, index+k)` *)
+Theorem C07_term_rewritten endo exo par err x i k :
+  let names := all_names endo exo par err in
+  NoDup names -> nth_error names i = Some x ->
+  rewrite_step names (Some (render_term x (idx_text k))) (0%nat, length (render_term x (idx_text k)), x, idx_text k)
+  = Some (lit "solved_values(" ++ dec (S i) ++ lit ", " ++ f_idx_text k ++ lit ")").
+Proof. exact (term_rewritten endo exo par err x i k). Qed.
+Print Assumptions C07_term_rewritten.
 
 (* ================================================================== error codes *)
 Theorem C07_wrapper_codes_are_template_codes :
@@ -144,12 +159,107 @@ Section C07.
     agree num (w_solve_t evf fm d o t s) (solve_t_M (py_hook prog n) (no_hook num) (no_hook num) d o t s).
   Proof. exact (solve_t_engines_agree num add sub mul div neg absf ltb is_nan is_inf of_int fexp flog fpow round4 exp4 log4 pow4
                   zero one isfin neg_mul neg_div prog fm d o t s p n m). Qed.
+
+  (* FortranEngine.solve (ONE call of the template's `solve` over all periods, then the wrapper's result loop) refines
+     SolverMixin.solve (a loop of solve_t calls), for any equations block: same list of return values or exception class,
+     same values, statuses, iteration counts; `solve_ok` asks of every period — on the store its predecessors leave — what
+     C07_wrapper_refines_python_solve_t asks, with finite values *)
+  Theorem C07_wrapper_refines_python_solve (evf : Z -> vals num -> vals num) (ev : hook num) fm d o n m ec fc fl ps s :
+    (0 < m)%nat -> rows_ok m (check d) -> rows_ok m (endo d) ->
+    fm_endo fm = endo_nums d -> fm_lags fm = Z.of_nat (lags d) -> fm_leads fm = Z.of_nat (leads d) ->
+    0 < max_iter o -> min_iter o <= max_iter o ->
+    (forall idx v, shape n m v -> shape n m (evf idx v)) ->
+    w_ec (errors o) = Some ec -> w_fc fl = Some fc ->
+    fail_raise o = match fl with FRaise => true | _ => false end ->
+    shape n m (vals_of s) -> length (status s) = n ->
+    solve_ok num sub absf ltb isfin zero evf ev fm d o n ec ps (vals_of s) ->
+    agree num (w_solve num sub absf ltb isfin zero evf fm d o fl ps s)
+              (py_solve num sub absf ltb isfin zero ev (no_hook num) (no_hook num) d o ps s).
+  Proof. intros H1 H2 H3 H4 H5 H6 H7 H8 H9 H10 H11 H12.
+         exact (w_solve_refines num sub absf ltb isfin zero evf ev fm d o n m ec fc fl H1 H2 H3 H4 H5 H6 H7 H8 H9 H10 H11 H12 ps s). Qed.
+
+  (* END TO END, solve: the engine compiled from `prog` and the class generated from `prog` *)
+  Theorem C07_solve_engines_agree (prog : list (eqn num)) fm d o n m ec fc fl ps s :
+    (0 < m)%nat -> rows_ok m (check d) -> rows_ok m (endo d) ->
+    fm_endo fm = endo_nums d -> fm_lags fm = Z.of_nat (lags d) -> fm_leads fm = Z.of_nat (leads d) ->
+    prog_scoped num m (Z.of_nat (lags d)) (Z.of_nat (leads d)) prog ->
+    0 < max_iter o -> min_iter o <= max_iter o ->
+    w_ec (errors o) = Some ec -> w_fc fl = Some fc ->
+    fail_raise o = match fl with FRaise => true | _ => false end ->
+    shape n m (vals_of s) -> length (status s) = n ->
+    solve_ok_prog num add sub mul div neg absf ltb is_nan is_inf of_int fexp flog fpow round4 exp4 log4 pow4 zero one isfin
+                  prog fm d o n ec ps (vals_of s) ->
+    agree num (w_solve num sub absf ltb isfin zero (f_pass prog) fm d o fl ps s)
+              (py_solve num sub absf ltb isfin zero (py_hook prog n) (no_hook num) (no_hook num) d o ps s).
+  Proof. intros H1 H2 H3 H4 H5 H6 H7 H8 H9 H10 H11 H12.
+         exact (solve_engines_agree num add sub mul div neg absf ltb is_nan is_inf of_int fexp flog fpow round4 exp4 log4 pow4
+                  zero one isfin neg_mul neg_div prog fm d o n m ec fc fl H1 H2 H3 H4 H5 H6 H7 H8 H9 H10 H11 H12 ps s). Qed.
+
+  (* ---- FortranEngine.solve_t rejects exactly as BaseModel.solve_t does: min_iter > max_iter (ValueError), an offset that
+     leaves the span (IndexError), pre-existing non-finite check values under errors='raise' (SolutionError, not chained) *)
+  Theorem C07_both_reject_min_gt_max (evf : Z -> vals num -> vals num) (ev before after : hook num) fm d o t s :
+    max_iter o < min_iter o ->
+    w_solve_t evf fm d o t s = (s, Raise ValueError) /\ solve_t_M ev before after d o t s = (s, Raise ValueError).
+  Proof. exact (both_reject_min_gt_max num sub absf ltb isfin zero evf ev before after fm d o t s). Qed.
+
+  Theorem C07_both_reject_offset_out_of_span (evf : Z -> vals num -> vals num) (ev before after : hook num) fm d o t s p :
+    min_iter o <= max_iter o -> errors o <> EInvalid ->
+    py_pos (length (status s)) t = Some p -> feasible d (length (status s)) p = true ->
+    offset o <> 0 ->
+    (Z.of_nat p + offset o < 0 \/ Z.of_nat (length (status s)) <= Z.of_nat p + offset o) ->
+    w_solve_t evf fm d o t s = (s, Raise IndexError) /\ solve_t_M ev before after d o t s = (s, Raise IndexError).
+  Proof. exact (both_reject_offset_out_of_span num sub absf ltb isfin zero evf ev before after fm d o t s p). Qed.
+
+  Theorem C07_both_reject_pre_existing (evf : Z -> vals num -> vals num) (ev before after : hook num) fm d o t s p :
+    min_iter o <= max_iter o -> errors o = ERaise ->
+    py_pos (length (status s)) t = Some p -> feasible d (length (status s)) p = true ->
+    (offset o = 0 \/ 0 <= Z.of_nat p + offset o < Z.of_nat (length (status s))) ->
+    all_finite num isfin (get_check num zero d (seeded num zero d o (vals_of s) p) p) = false ->
+    w_solve_t evf fm d o t s = (setvals num s (seeded num zero d o (vals_of s) p), Raise (SolutionError None)) /\
+    solve_t_M ev before after d o t s = (with_vals num s (seeded num zero d o (vals_of s) p) (log s), Raise (SolutionError None)).
+  Proof. exact (both_reject_pre_existing num sub absf ltb isfin zero evf ev before after fm d o t s p). Qed.
+
+  (* ---- where they differ, for EVERY model and store (the statement's "same exception types / statuses" is false there):
+     a period without room for the lags / leads -> FortranEngineError vs IndexError (template codes 13 / 14 unmapped) *)
+  Theorem C07_infeasible_period_differs (evf : Z -> vals num -> vals num) (ev before after : hook num) fm d o t s p n m :
+    shape n m (vals_of s) -> length (status s) = n -> (0 < m)%nat ->
+    fm_lags fm = Z.of_nat (lags d) -> fm_leads fm = Z.of_nat (leads d) ->
+    min_iter o <= max_iter o -> errors o <> EInvalid ->
+    py_pos n t = Some p -> feasible d n p = false ->
+    (offset o = 0 \/ 0 <= Z.of_nat p + offset o < Z.of_nat n) ->
+    is_raise (errors o) && negb (all_finite num isfin (get_check num zero d (seeded num zero d o (vals_of s) p) p)) = false ->
+    w_solve_t evf fm d o t s = (setvals num s (seeded num zero d o (vals_of s) p), Raise FortranEngineError) /\
+    solve_t_M ev before after d o t s = (s, Raise IndexError).
+  Proof. exact (infeasible_period_differs num sub absf ltb isfin zero evf ev before after fm d o t s p n m). Qed.
+
+  (* max_iter = 0 -> FortranEngineError (error_code keeps its initial -1) vs 'F' / 0 iterations / NonConvergenceError or False *)
+  Theorem C07_max_iter_zero_differs (evf : Z -> vals num -> vals num) (ev before after : hook num) fm d o t s p n m :
+    shape n m (vals_of s) -> length (status s) = n -> (0 < m)%nat ->
+    rows_ok m (check d) -> rows_ok m (endo d) ->
+    fm_endo fm = endo_nums d -> fm_lags fm = Z.of_nat (lags d) -> fm_leads fm = Z.of_nat (leads d) ->
+    min_iter o <= max_iter o -> max_iter o = 0 -> errors o <> EInvalid ->
+    py_pos n t = Some p -> feasible d n p = true ->
+    (offset o = 0 \/ 0 <= Z.of_nat p + offset o < Z.of_nat n) ->
+    is_raise (errors o) && negb (all_finite num isfin (get_check num zero d (seeded num zero d o (vals_of s) p) p)) = false ->
+    (forall em cf k v, before t em cf k v = (v, None)) ->
+    w_solve_t evf fm d o t s = (setvals num s (seeded num zero d o (vals_of s) p), Raise FortranEngineError) /\
+    solve_t_M ev before after d o t s =
+      (mkState (seeded num zero d o (vals_of s) p) (upd p Failed (status s)) (upd p 0 (iters s)) (log s ++ [EvBefore t]),
+       if fail_raise o then Raise NonConvergenceError else Ret false).
+  Proof. exact (max_iter_zero_differs num sub absf ltb isfin zero evf ev before after fm d o t s p n m). Qed.
 End C07.
 Print Assumptions C07_literal_free_expressions_agree.
 Print Assumptions C07_pass_agree.
 Print Assumptions C07_evaluate_engines_agree.
 Print Assumptions C07_wrapper_refines_python_solve_t.
 Print Assumptions C07_solve_t_engines_agree.
+Print Assumptions C07_wrapper_refines_python_solve.
+Print Assumptions C07_solve_engines_agree.
+Print Assumptions C07_both_reject_min_gt_max.
+Print Assumptions C07_both_reject_offset_out_of_span.
+Print Assumptions C07_both_reject_pre_existing.
+Print Assumptions C07_infeasible_period_differs.
+Print Assumptions C07_max_iter_zero_differs.
 
 (* ================================================================== what the current tree breaks (binary64 instances) *)
 (* "numeric constants in equations denote the same double-precision real numbers in both": refuted.  `1 / 2 * X` compiles,
